@@ -13,7 +13,7 @@ PROP = {'engine': 'stack',
          'killed at their deadline and not before; unsubscribed ones killed without event; the operation returns after every process died and its '
          'notification was delivered (or 2 s grace), within allowance + 2 s + slack. Non-trivial: >=1 extension and a process that does not exit '
          'voluntarily.',
- 'assumptions': ['fake process supervisor (DESIGN 3.4)', 'lower time bounds carry 60 ms tolerance for the anchor, upper bounds 1 s slack'],
+ 'assumptions': ['fake process supervisor (DESIGN 3.4)', 'lower time bounds carry 60 ms tolerance for the anchor; a kill at a deadline may be 150 ms + twice the measured host lag late, the return of the operation 1 s'],
  'level_text': 'random search plus (thorough) enumeration of the behaviour product for one shutdown episode against the real orchestrator, judged on '
                'the ordered, timestamped supervisor log.',
  'level_note': 'one episode per scenario; unkillable processes and the 9 s supervisor bound are not modelled',
